@@ -35,14 +35,19 @@ def _mk_spec(LEN, BYTE, signed):
             arr = c.array("r_bytes", inp=False)
             i = c.int("i_cur", inp=False)
             r.chunks = [Chunk("arr", n=SymInt(n), arr=arr)]
-            j = z3.Int("j")
             c.assume(n >= 0)
             if not signed:
                 c.assume(i >= 0)
             c.assume(n + LEN(i) == LEN(i0))
-            c.assume(z3.ForAll([j], z3.Implies(z3.And(0 <= j, j < n), z3.And(z3.Select(arr, j) == BYTE(i0, j),
-                                                                           z3.Select(arr, j) >= 0, z3.Select(arr, j) < 256))))
-            c.assume(z3.ForAll([j], z3.Implies(j >= 0, BYTE(i, j) == BYTE(i0, n + j)), patterns=[BYTE(i, j)]))
+            # the two universally quantified clauses of the invariant, instantiated at exactly the terms the
+            # obligations below use (skolem constants j_sk, j_post): quantifier-free queries
+            self.jsk = c.int("j_sk", inp=False)
+            jpost = c.ghost["j_post"]
+            for j in (self.jsk, jpost):
+                c.assume(z3.Implies(z3.And(0 <= j, j < n), z3.And(z3.Select(arr, j) == BYTE(i0, j),
+                                                                 z3.Select(arr, j) >= 0, z3.Select(arr, j) < 256)))
+            for j in (z3.IntVal(0), self.jsk + 1):
+                c.assume(z3.Implies(j >= 0, BYTE(i, j) == BYTE(i0, n + j)))
             # a `while True` loop: not the first iteration unless n == 0 -- nothing more to say
             self.n, self.arr, self.ih = n, arr, i
             return {"i": SymInt(i)}
@@ -56,7 +61,7 @@ def _mk_spec(LEN, BYTE, signed):
             c.prove("inv-preserved/length", z3.And(n2 >= 0, n2 + LEN(it) == LEN(i0)))
             if not signed:
                 c.prove("inv-preserved/nonneg", it >= 0)
-            j = c.int("j_sk", inp=False)
+            j = self.jsk
             c.prove("inv-preserved/prefix", z3.Implies(z3.And(0 <= j, j < n2), z3.And(r.at(j) == BYTE(i0, j), r.at(j) >= 0, r.at(j) < 256)))
             # hints (each one is itself proved before it is used): instance of the hypothesis at j+1, one unfolding of BYTE
             c.prove("inv-preserved/hint-instance", z3.Implies(j >= 0, BYTE(self.ih, j + 1) == BYTE(i0, self.n + j + 1)))
@@ -70,6 +75,7 @@ def make_harness(fn, LEN, BYTE, signed, name):
     def harness(ctx):
         i0 = ctx.int("i")
         ctx.ghost["i0"] = SymInt(i0)
+        ctx.ghost["j_post"] = ctx.int("j_post", inp=False)
         try:
             r = fn(SymInt(i0))
         except AssertionError:
@@ -80,7 +86,7 @@ def make_harness(fn, LEN, BYTE, signed, name):
         ctx.cover("returned")
         r = SymBytes.of(r)
         ctx.prove(name + "/length-is-standard", r.zlen() == LEN(i0))
-        j = ctx.int("j_post", inp=False)
+        j = ctx.ghost["j_post"]
         ctx.prove(name + "/bytes-are-standard", z3.Implies(z3.And(0 <= j, j < r.zlen()), z3.And(r.at(j) == BYTE(i0, j), r.at(j) >= 0, r.at(j) < 256)))
 
     return harness
@@ -125,3 +131,51 @@ def jobs(tier="quick", seed=0):
                   setup=(lambda fn=fn, key=key, spec=spec: _setup(fn, key, spec)),
                   replay=replay(fn, sf, signed), kind="D", func="leb128:_%s.encode" % nm[0].upper(),
                   expect_cover=("returned", "loop-preserved:%s#0" % key), timeout_ms=60000)
+
+
+def _decode_bounded(seed):
+    """B stand-in for the pair lemma A-LEB-DEC: decode_reader(encode(v) ++ tail) == (v, len(encode(v))).
+    Bound: every v within 300 of +-128^k / +-64*128^k for k = 0..10, plus 4000 pseudo-random 70-bit values."""
+    import io
+    import random
+    from pyvc.run import BResult
+    from spec import dwarf_std
+
+    def run():
+        br = BResult()
+        br.bound = "v within 300 of 128^k, 64*128^k (k<=10), both signs for signed; 4000 random values < 2^70; tails b'', b'\\x80\\x01', b'\\x7f'"
+        br.clauses = ["leb128/u.decode_reader-inverts-u.encode", "leb128/i.decode_reader-inverts-i.encode"]
+        rnd = random.Random(seed)
+        vals = set()
+        for k in range(0, 11):
+            for base in (128 ** k, 64 * 128 ** k):
+                for d in range(-300, 301):
+                    vals.add(base + d)
+                    vals.add(-(base + d))
+        for _ in range(4000):
+            vals.add(rnd.getrandbits(rnd.randint(1, 70)) * rnd.choice((1, -1)))
+        for v in sorted(vals):
+            for tail in (b"", b"\x80\x01", b"\x7f"):
+                for nm, codec, spec, ok in (("u", leb128.u, dwarf_std.uleb, v >= 0), ("i", leb128.i, dwarf_std.sleb, True)):
+                    if not ok:
+                        continue
+                    br.cases += 1
+                    enc = bytes(codec.encode(v))
+                    if list(enc) != spec(v):
+                        br.failures.append({"clause": "leb128/%s.encode-is-standard" % nm, "witness": {"v": v}, "detail": enc.hex()})
+                        continue
+                    got = codec.decode_reader(io.BytesIO(enc + tail))
+                    if got != (v, len(enc)):
+                        br.failures.append({"clause": "leb128/%s.decode_reader-inverts-%s.encode" % (nm, nm), "witness": {"v": v, "tail": tail.hex()}, "detail": repr(got)})
+        br.nontrivial = len(vals)
+        br.samples = [{"v": v, "uleb": bytes(leb128.u.encode(abs(v))).hex(), "sleb": bytes(leb128.i.encode(v)).hex()} for v in sorted(vals)[:2] + sorted(vals)[-2:]]
+        return br
+    return run
+
+
+_jobs_d = jobs
+
+
+def jobs(tier="quick", seed=0):
+    yield from _jobs_d(tier, seed)
+    yield Job("C14/leb128/decode_reader-bounded", _decode_bounded(seed), kind="B", func="leb128:_U.decode_reader/_I.decode_reader")
